@@ -231,7 +231,8 @@ def command_oracle(ctx, c):
     idx = [KEYS21.index(k) for k in keys]
     vols = np.sort(rng.uniform(50, 3000, c["nrows"]))[::-1]
     lat = rng.uniform(0.5, 12, (c["nrows"], 3))
-    tab = np.round(w[:, idx], 3)
+    tab = w[:, idx]          # exactly consistent (rounding redundant columns separately would contradict the relations by ~5e-4,
+                             # and then the code's least-squares compromise and the reference projection legitimately differ)
     cc = {"keys": [list(k) for k in keys], "style": "C" if c["upper"] else "c", "lattice": c["lattice"], "trail": c["trail"],
           "blank_end": False, "header_word": "V"}
     d = tempfile.mkdtemp(prefix="cijc17-")
